@@ -180,6 +180,10 @@ func jsonLeaf() string {
 	case 12:
 		return `9007199254740993`
 	}
+	if rng.Intn(10) == 0 { // strings of slashes, backslashes and wildcard characters (the leaf-kind inference looks at both ends)
+		b, _ := json.Marshal(randText(4, []string{`\`, `/`, `*`, `?`, "a", `\/`, `/\`, " ", `"`}))
+		return string(b)
+	}
 	if rng.Intn(8) == 0 { // strings that are member names of the encoding, or end like one
 		return pick([]string{`"min"`, `"max"`, `"left"`, `"right"`, `"operator"`, `"inclusive"`, `"power"`, `"distance"`, `"\"min"`, `"x\"max"`, `"\"left\":"`, `"LITERAL"`, `"AND"`})
 	}
